@@ -63,6 +63,9 @@ struct Config {
     std::function<void(TaskRecord&)> afterTask;       // driver hook (observation digest, kernel used)
 };
 
+// called at every task submission (drivers point it at their watchdog heartbeat: a long run that keeps submitting is not a hang)
+extern void (*progressHook)();
+
 void beginRun(const Config& cfg);
 RunTrace endRun();
 
